@@ -84,6 +84,34 @@ PROPS["C10"] = {
     "cover_replay_tests": {"two_point": "two_point_segments_reachable"},
 }
 
+PROPS["C13"] = {
+    "features": ["c13"],
+    "modules": ["c13_weighted::"],
+    "has_thorough_harnesses": False,
+    "functions": [
+        "ec_core::weighted::weighted_pair::WeightedPair::new, <WeightedPair<A,B> as Selector<P>>::select, WithWeight::weight",
+        "<ec_core::weighted::Weighted<T> as Selector<P>>::select, Weighted::new",
+        "WithWeightedItem::{with_item_and_weight,with_weighted_item} for Weighted, WeightedPair and Result<_,WeightSumOverflow>",
+        "<ec_core::operator::selector::dyn_weighted::DynWeighted<P> as Selector<P>>::select, new, with_selector (rand choose_weighted)",
+        "rand 0.9.0 Bernoulli::from_ratio / Bernoulli::sample (f64 division and the 2^64 scaling) on symbolic u32 weights",
+    ],
+    "bounds": {
+        "quick": "construction (WeightSumOverflow, weight sum) for ALL u32 pairs and 4-member chains, full width; selection with every random stream: "
+                 "symbolic weights 0..=15 (pairs) / 0..=7 (left- and right-nested triples) and 8 + 4 concrete boundary weight tuples "
+                 "(u32::MAX, 2^31, 1, 0 combinations); proportionality as a measure statement: for every 64-bit word w, w below (above) "
+                 "a*2^64/(a+b) by more than 2^12 forces member A (B), checked division-free in u128; DynWeighted with 3 boxed members, weights "
+                 "symbolic in 0..=7, streams = 4 symbolic words then all-ones",
+    },
+    "outside": "chains longer than 4 and trees deeper than 2 (the pair is the only combinator, deeper trees compose the verified pair step; not machine-checked); "
+               "the exact proportionality law of DynWeighted (only zero-weight exclusion, exactly-one delegation and the error are decided; the "
+               "distribution of rand's choose_weighted is rand's contract); a band of 2^13 words around each threshold (probability 2^-51); selection with symbolic full-width weights "
+               "(measured: f64 divider against a 128-bit multiplier > 240 s) -- covered by the boundary table instead",
+    "assumptions": [
+        "independence of distinct random words (product law for nested pairs is an arithmetic consequence, not re-proved)",
+        "rand 0.9.0 Bernoulli and choose_weighted run unmodified on the symbolic generator",
+    ],
+}
+
 PROPS["C14"] = {
     "features": ["c14"],
     "modules": ["c14_compose::"],
